@@ -33,8 +33,8 @@ func propTable() map[string]PropSpec {
 		"data races between the per-shard goroutines of getShardInfos/applyShardsInfo (errgroup closures run synchronously)", "the HTTP/JSON transport between shard.Shard and the sidecar (Shard.APIGet/APIPost are the observation points)"}
 	t["C01"] = PropSpec{
 		ID: "C01", Pkg: coordPkg, NativeDir: "coordinator",
-		Quick:    append([]HarnessRun{H("VGC", 8, 2, 2), H("VRelief", 4, 2, 1, 0), H("VRelief", 4, 2, 2, 1), H("VAssign", 4, 2, 2), H("VScaleDown", 4, 2, 1), H("VCycle", 12, 1, 1, 3), H("VCycle", 4, 2, 0, 2), H("VCycle", 6, 2, 1, 32), H("VCycle", 4, 2, 1, 24), H("VTransfer", 4), {Entry: "VUpdateTarget", Pkg: "tkestack.io/kvass/pkg/shard", Args: []int{2}, Cosim: 8}}, lemmas...),
-		Thorough: append([]HarnessRun{H("VGC", 8, 3, 1), H("VGC", 8, 3, 2), H("VRelief", 4, 2, 2, 2), H("VAssign", 4, 3, 1), H("VScaleDown", 4, 2, 2), {Entry: "VUpdateTarget", Pkg: "tkestack.io/kvass/pkg/shard", Args: []int{3}, Cosim: 8}}, lemmas...),
+		Quick:    append([]HarnessRun{H("VGC", 8, 2, 2), H("VRelief", 4, 2, 1, 0), H("VRelief", 4, 2, 2, 1), H("VAssign", 4, 2, 2), H("VScaleDown", 4, 2, 1, 0), H("VCycle", 12, 1, 1, 3), H("VCycle", 4, 2, 0, 2), H("VCycle", 6, 2, 1, 32), H("VCycle", 4, 2, 1, 24), H("VTransfer", 4), {Entry: "VUpdateTarget", Pkg: "tkestack.io/kvass/pkg/shard", Args: []int{2}, Cosim: 8}}, lemmas...),
+		Thorough: append([]HarnessRun{H("VGC", 8, 3, 1), H("VGC", 8, 3, 2), H("VRelief", 4, 2, 2, 2), H("VAssign", 4, 3, 1), H("VScaleDown", 4, 2, 2, 0), {Entry: "VUpdateTarget", Pkg: "tkestack.io/kvass/pkg/shard", Args: []int{3}, Cosim: 8}}, lemmas...),
 		Required: []string{"gc.removed", "gc.rule1", "c01.reported", "c01.removed", "relief.moved", "assign.placed", "cycle.end"},
 		Prefixes: []string{"C01."},
 		Bounds:   "phase lemmas (gcTargets, alleviateShards, assignNoScrapingTargets, tryScaleDown) from arbitrary well-formed pre-states with S<=2 shards, K<=2 hashes (alleviateShards: K=1 with a head limit, K=2 without one and all shards in sync); whole runOnce cycles at (S,K) = (1,1) with failing POSTs / ChangeScale, (2,0), (2,1) without relief and (2,1) with relief on concrete, different shard loads and symbolic limits; thorough adds gcTargets at (3,1), (3,2), assignment at (3,1), scale-down at (2,2) and process-series relief at (2,2) under an unreached head limit; every map-iteration order and random pick; loop unwinding 12 with unwinding assertion",
@@ -42,7 +42,7 @@ func propTable() map[string]PropSpec {
 	}
 	t["C04"] = PropSpec{
 		ID: "C04", Pkg: coordPkg, NativeDir: "coordinator",
-		Quick:    append([]HarnessRun{H("VTransfer", 4), H("VRelief", 6, 2, 1, 0), H("VRelief", 4, 2, 2, 1), H("VAssign", 6, 2, 2), H("VScaleDown", 6, 2, 2), H("VCycle", 12, 1, 1, 0)}, lemmas...),
+		Quick:    append([]HarnessRun{H("VTransfer", 4), H("VRelief", 6, 2, 1, 0), H("VRelief", 4, 2, 2, 1), H("VAssign", 6, 2, 2), H("VScaleDown", 6, 2, 2, 0), H("VCycle", 12, 1, 1, 0)}, lemmas...),
 		Thorough: append([]HarnessRun{H("VRelief", 6, 2, 2, 2), H("VAssign", 6, 3, 2)}, lemmas...),
 		Required: []string{"relief.placed", "assign.placed", "scaledown.placed", "c04.placed", "c04.scalecall"},
 		Prefixes: []string{"C04."},
@@ -51,8 +51,8 @@ func propTable() map[string]PropSpec {
 	}
 	t["C05"] = PropSpec{
 		ID: "C05", Pkg: coordPkg, NativeDir: "coordinator",
-		Quick:    []HarnessRun{H("VGC", 8, 2, 1), H("VGC", 8, 2, 2), H("VTransfer", 2), H("VRelief", 4, 2, 1, 0), H("VRelief", 4, 2, 2, 1), H("VScaleDown", 4, 2, 1), H("VCycle", 8, 1, 1, 0), H("VCycle", 8, 2, 1, 40), H("VCycle", 4, 2, 1, 24)},
-		Thorough: []HarnessRun{H("VGC", 8, 3, 1), H("VGC", 8, 3, 2), H("VRelief", 4, 2, 2, 2), H("VScaleDown", 4, 2, 2), {Entry: "VCycle", Args: []int{2, 1, 8}, Cosim: 8, Subst: swr, Timeout: 40 * time.Minute}},
+		Quick:    []HarnessRun{H("VGC", 8, 2, 1), H("VGC", 8, 2, 2), H("VTransfer", 2), H("VRelief", 4, 2, 1, 0), H("VRelief", 4, 2, 2, 1), H("VScaleDown", 4, 2, 1, 0), H("VCycle", 8, 1, 1, 0), H("VCycle", 8, 2, 1, 40), H("VCycle", 4, 2, 1, 24)},
+		Thorough: []HarnessRun{H("VGC", 8, 3, 1), H("VGC", 8, 3, 2), H("VRelief", 4, 2, 2, 2), H("VScaleDown", 4, 2, 2, 0), {Entry: "VCycle", Args: []int{2, 1, 8}, Cosim: 8, Subst: swr, Timeout: 40 * time.Minute}},
 		Required: []string{"gc.handover", "gc.removed", "relief.moved", "scaledown.moved", "c05.moved", "c05.handover"},
 		Prefixes: []string{"C05."},
 		Bounds:   "gcTargets / relief / scale-down lemmas with S<=2, K<=2 (relief: K=1 with a head limit, K=2 without); whole cycles at (1,1), (2,1) without relief, (2,1) with relief on concrete, different shard loads; thorough adds gcTargets at (3,1), (3,2), scale-down at (2,2), relief at (2,2) under an unreached head limit and the fully symbolic whole cycle (2,1) with relief and all shards in sync; the constant 3 of the hand-over rule is taken from README, not from the code",
@@ -61,17 +61,17 @@ func propTable() map[string]PropSpec {
 	}
 	t["C07"] = PropSpec{
 		ID: "C07", Pkg: coordPkg, NativeDir: "coordinator",
-		Quick:    []HarnessRun{H("VScaleDown", 6, 2, 1), H("VScaleDown", 6, 3, 1), H("VCycle", 12, 1, 1, 0), H("VCycle", 8, 2, 0, 0), H("VCycle", 6, 2, 1, 32)},
-		Thorough: []HarnessRun{H("VScaleDown", 6, 2, 2), H("VCycle", 12, 1, 1, 2)},
+		Quick:    []HarnessRun{H("VScaleDown", 6, 2, 1, 0), H("VScaleDown", 6, 3, 1, 0), H("VScaleDown", 4, 4, 2, 1), H("VCycle", 12, 1, 1, 0), H("VCycle", 8, 2, 0, 0), H("VCycle", 6, 2, 1, 32)},
+		Thorough: []HarnessRun{H("VScaleDown", 6, 2, 2, 0), H("VCycle", 12, 1, 1, 2)},
 		Required: []string{"scaledown.end", "c07.scalecall", "scaledown.moved"},
 		Prefixes: []string{"C07."},
-		Bounds:   "every ChangeScale argument of whole cycles at (S,K) = (1,1), (2,0), (2,1) without relief, with symbolic idle instants against a symbolic clock; tryScaleDown lemma at (2,1), (3,1); thorough adds the lemma at (2,2) and the cycle (1,1) with failing scale requests",
+		Bounds:   "every ChangeScale argument of whole cycles at (S,K) = (1,1), (2,0), (2,1) without relief, with symbolic idle instants against a symbolic clock; tryScaleDown lemma at (2,1), (3,1) and the drain scenario at (4,2) (two targets on the last but one shard, an idle last shard, free loads of the two front shards, no head limit: first-fit packing in every pair of iteration orders); thorough adds the lemma at (2,2) and the cycle (1,1) with failing scale requests",
 		Assume:   append([]string{"time.Now: first reading arbitrary in [0,2^60), each later reading adds an arbitrary step in [0,2^50] ns; a shard whose idle time expires during the cycle is exempt from the keeps-used clause"}, wfAssumptions...),
 		Outside:  cycleOutside,
 	}
 	t["C08"] = PropSpec{
 		ID: "C08", Pkg: coordPkg, NativeDir: "coordinator",
-		Quick:    []HarnessRun{H("VCycle", 12, 1, 1, 7), H("VCycle", 6, 2, 0, 4), H("VCycle", 6, 2, 1, 32), H("VAssign", 4, 2, 2), H("VRelief", 4, 2, 1, 0), H("VRelief", 4, 2, 2, 1), H("VScaleDown", 4, 2, 1), H("VScaleDown", 4, 3, 1)},
+		Quick:    []HarnessRun{H("VCycle", 12, 1, 1, 7), H("VCycle", 6, 2, 0, 4), H("VCycle", 6, 2, 1, 32), H("VAssign", 4, 2, 2), H("VRelief", 4, 2, 1, 0), H("VRelief", 4, 2, 2, 1), H("VScaleDown", 4, 2, 1, 0), H("VScaleDown", 4, 3, 1, 0)},
 		Thorough: []HarnessRun{H("VAssign", 4, 3, 2), H("VRelief", 4, 2, 2, 2)},
 		Required: []string{"c08.unready", "c08.statusfail", "c08.runtimefail", "c08.hashdiffers", "c08.outofsync", "c08.insync", "c08.heldoutofsync", "assign.placed"},
 		Prefixes: []string{"C08."},
@@ -137,17 +137,18 @@ func propTable() map[string]PropSpec {
 	c12.Bounds = "tee kernel wrappedReader.Read: one reader step (n, err) with n <= 3 symbolic bytes (thorough 4), 2 writers each with <= 3 partial writes of 1-2 bytes and a failure at call 1..3; whole responses through Proxy.ServeHTTP as in C13 (51-byte payload, <= 3 chunks, identity and gzip path)"
 	c12.Outside = []string{"that VictoriaMetrics' ParseStream really drains the reader for every payload within its line limit (contract stub)", "real gzip decoding, many-megabyte bodies, HTTP chunking below io.Reader", "payload contents other than the fixed 51-byte exposition text in the whole-response harness (the tee kernel is decided for arbitrary bytes)"}
 	t["C12"] = c12
+	relSubst := map[string]string{scrapePkg + ".newJobInfo": scrapePkg + ".vNewJobInfo"}
 	t["C14"] = PropSpec{
 		ID: "C14", Pkg: scrapePkg, LoadPkgs: []string{targetPkg, sidePkg}, NativeDir: "scrape",
 		Quick: []HarnessRun{{Entry: "VStats", Args: []int{3}, Subst: relabelSubst, Cosim: 8},
 			{Entry: "VWindow", Pkg: targetPkg, Args: []int{0, 20}}, {Entry: "VWindow", Pkg: targetPkg, Args: []int{1, 20}}, {Entry: "VWindow", Pkg: targetPkg, Args: []int{2, 20}}, {Entry: "VWindow", Pkg: targetPkg, Args: []int{3, 20}},
-			{Entry: "VTMStep", Pkg: sidePkg, Args: []int{2}}, P("VProxy", 0, 0)},
+			{Entry: "VTMStep", Pkg: sidePkg, Args: []int{2}}, P("VProxy", 0, 0), {Entry: "VManagerReload", Subst: relSubst, Cosim: 4}},
 		Thorough: []HarnessRun{{Entry: "VStats", Args: []int{4}, Subst: relabelSubst, Cosim: 8},
 			{Entry: "VWindow", Pkg: targetPkg, Args: []int{0, 32}}, {Entry: "VWindow", Pkg: targetPkg, Args: []int{1, 32}}, {Entry: "VWindow", Pkg: targetPkg, Args: []int{2, 32}}, {Entry: "VWindow", Pkg: targetPkg, Args: []int{3, 32}},
 			{Entry: "VTMStep", Pkg: sidePkg, Args: []int{3}}, P("VProxy", 0, 0)},
-		Required: []string{"stats.end", "window.end", "tm.end", "proxy.ok"},
+		Required: []string{"stats.end", "window.end", "tm.end", "proxy.ok", "reload.job.kept", "reload.end"},
 		Prefixes: []string{"C14."},
-		Bounds:   "StatisticSeries over <= 3 rows (thorough 4) in two blocks, metric names from a pool of 2, symbolic keep/drop verdict per row; UpdateScrapeResult from an arbitrary window of length 0..3 with values < 2^20 (thorough 2^32) in exact floating-point theory; Service.runtimeInfo sums over <= 2 (3) targets; composition through Proxy.ServeHTTP on the fixed 5-sample payload",
+		Bounds:   "StatisticSeries over <= 3 rows (thorough 4) in two blocks, metric names from a pool of 2, symbolic keep/drop verdict per row; UpdateScrapeResult from an arbitrary window of length 0..3 with values < 2^20 (thorough 2^32) in exact floating-point theory; Service.runtimeInfo sums over <= 2 (3) targets; composition through Proxy.ServeHTTP on the fixed 5-sample payload; scrape.Manager.ApplyConfig twice over 2 jobs, each absent or with one of three metric-relabel rule lists: after the reload GetJob hands out exactly the current configuration's rules (newJobInfo summarised: the HTTP client construction is not executed; os.Getenv returns the empty string)",
 		Assume:   append([]string{"relabel.Process contract model: identity when no rule is configured, otherwise nil (dropped) or the label set (kept) per sample"}, sideAssume...),
 		Outside:  []string{"the relabel rule language itself (regexp)", "window values >= 2^32", "/samples/ endpoint aggregation in the coordinator"},
 	}
